@@ -99,6 +99,10 @@ type gl struct {
 	hashKind    map[types.Object]string // local hasher -> hash parameter name
 	xGlobals    map[string]bool // globals of other packages needed by cross-package calls (become parameters)
 	xIter       map[string][2]string // "pkg.Func" of a translated iter.Seq function of another package -> {lean name, extra leading args}
+	// a struct type whose pointers never leave the function (trie.forEachStep): its cells live in a function-LOCAL
+	// heap `lheap` (declared at the top of the function), a pointer is an index into it
+	lheapT      string
+	yieldName   string // name of the consumer callback ("yield" in iter.Seq closures, the func parameter otherwise)
 	selfExts    []string // ext parameters a self-recursive function is declared to take (fixed up front)
 	selfRec     bool   // the function being translated calls itself: its body is wrapped in a match on `fuel`
 	floatLean   string // Lean type standing for float64 (newick: distances are the model's opaque `Dist`), zero = none
@@ -242,6 +246,93 @@ type extFunc struct {
 }
 
 const heapLean = "List (List (UInt8 × Int))"
+
+// isLHeapPtr: t is *lheapT
+func (g *gl) isLHeapPtr(t types.Type) bool {
+	if g.lheapT == "" || t == nil {
+		return false
+	}
+	p, ok := t.(*types.Pointer)
+	if !ok {
+		return false
+	}
+	n, ok := p.Elem().(*types.Named)
+	return ok && n.Obj().Pkg() == g.pkg && n.Obj().Name() == g.lheapT
+}
+
+func (g *gl) lheapStruct() *types.Struct {
+	return g.pkg.Scope().Lookup(g.lheapT).Type().Underlying().(*types.Struct)
+}
+
+// lheapField: e is x.f for x of type *lheapT; returns x and the field's index
+func (g *gl) lheapField(e ast.Expr) (ast.Expr, int, bool) {
+	se, ok := e.(*ast.SelectorExpr)
+	if !ok {
+		return nil, 0, false
+	}
+	tv, ok := g.info.Types[se.X]
+	if !ok || !g.isLHeapPtr(tv.Type) {
+		return nil, 0, false
+	}
+	st := g.lheapStruct()
+	for k := 0; k < st.NumFields(); k++ {
+		if st.Field(k).Name() == se.Sel.Name {
+			return se.X, k, true
+		}
+	}
+	return nil, 0, false
+}
+
+// lheapAlloc: the allocation of a cell for the composite literal cl (positional or keyed); returns the pointer
+func (g *gl) lheapAlloc(w *wr, cl *ast.CompositeLit) string {
+	st := g.lheapStruct()
+	cell := g.zero(st)
+	if len(cl.Elts) > 0 {
+		// the literal's own type is the struct: reuse the struct-literal translation
+		parts := make([]string, st.NumFields())
+		for k := range parts {
+			parts[k] = bareZero(g.zero(st.Field(k).Type()))
+		}
+		for i, el := range cl.Elts {
+			if kv, ok := el.(*ast.KeyValueExpr); ok {
+				for k := 0; k < st.NumFields(); k++ {
+					if st.Field(k).Name() == kv.Key.(*ast.Ident).Name {
+						parts[k] = g.expr(kv.Value).opnd()
+					}
+				}
+			} else {
+				parts[i] = g.expr(el).opnd()
+			}
+		}
+		cell = "(" + strings.Join(parts, ", ") + ")"
+	}
+	w.line("lheap := lheap ++ [" + cell + "]")
+	tp := g.tmp()
+	w.line("let " + tp + " : Int := (len lheap) - 1")
+	return tp
+}
+
+// usesLHeap: does the function mention the local-heap type at all?
+func (g *gl) usesLHeap(fd *ast.FuncDecl) bool {
+	if g.lheapT == "" {
+		return false
+	}
+	use := false
+	ast.Inspect(fd, func(n ast.Node) bool {
+		if e, ok := n.(ast.Expr); ok {
+			if tv, ok := g.info.Types[e]; ok && tv.Type != nil {
+				if g.isLHeapPtr(tv.Type) {
+					use = true
+				}
+				if sl, ok := tv.Type.Underlying().(*types.Slice); ok && g.isLHeapPtr(sl.Elem()) {
+					use = true
+				}
+			}
+		}
+		return true
+	})
+	return use
+}
 
 // heapStruct: the struct type of heap cells
 func (g *gl) heapStruct() *types.Struct {
@@ -424,7 +515,7 @@ func (g *gl) leanType(t types.Type) string {
 	if on := g.opaqueName(t); on != "" {
 		return g.opaqueT[on]
 	}
-	if g.isHeapPtr(t) {
+	if g.isHeapPtr(t) || g.isLHeapPtr(t) {
 		return "Int"
 	}
 	if g.isRecPtr(t) {
@@ -514,7 +605,7 @@ func paren(s string) string {
 
 // zero value of a type, as a Lean term (atom or parenthesised)
 func (g *gl) zero(t types.Type) string {
-	if g.isHeapPtr(t) {
+	if g.isHeapPtr(t) || g.isLHeapPtr(t) {
 		return "(-1 : Int)"
 	}
 	if g.isRecPtr(t) {
@@ -939,6 +1030,10 @@ func (g *gl) expr(e ast.Expr) ex {
 			return atomE("[]")
 		}
 	case *ast.SelectorExpr:
+		if x, k, ok := g.lheapField(v); ok {
+			n := g.lheapStruct().NumFields()
+			return ex{text: "(← idx lheap " + g.expr(x).arg() + ")" + strings.TrimPrefix(tupleProj("X", k, n), "X"), atom: true}
+		}
 		if x, ok := g.heapField(v); ok {
 			st := g.heapStruct()
 			if st.NumFields() == 1 {
@@ -1036,6 +1131,11 @@ func (g *gl) expr(e ast.Expr) ex {
 	}
 	g.die(e, fmt.Sprintf("expression %T", e))
 	return ex{}
+}
+
+func isBoolT(t types.Type) bool {
+	b, ok := t.Underlying().(*types.Basic)
+	return ok && b.Kind() == types.Bool
 }
 
 // nilOf: the Lean term for Go's nil at type t ("" = not a type with a nil the translation knows)
@@ -1741,6 +1841,27 @@ func (g *gl) fieldOf(se *ast.SelectorExpr) (int, int, bool) {
 }
 
 func (g *gl) assignTo(w *wr, lhs ast.Expr, tok token.Token, rhs ast.Expr) {
+	if x, k, ok := g.lheapField(lhs); ok {
+		n := g.lheapStruct().NumFields()
+		tp, tc := g.tmp(), g.tmp()
+		var val string
+		if tok == token.ASSIGN {
+			tv := g.tmp()
+			w.line("let " + tv + " := " + g.rhsOf(rhs).arg())
+			val = tv
+		}
+		w.line("let " + tp + " : Int := " + g.expr(x).opnd())
+		w.line("let " + tc + " ← idx lheap " + tp)
+		if tok != token.ASSIGN {
+			op, ok := opOf[tok]
+			if !ok || op == token.OR {
+				g.die(lhs, "assignment operator")
+			}
+			val = "(" + tupleProj(tc, k, n) + " " + opSym[op] + " " + g.rhsOf(rhs).arg() + ")"
+		}
+		w.line("lheap ← setIdx lheap " + tp + " " + tupleSet(tc, k, n, val))
+		return
+	}
 	if x, ok := g.heapField(lhs); ok && tok == token.ASSIGN {
 		// x.f = v through a pointer into the heap
 		se := lhs.(*ast.SelectorExpr)
@@ -1887,6 +2008,62 @@ func (g *gl) assignTo(w *wr, lhs ast.Expr, tok token.Token, rhs ast.Expr) {
 func (g *gl) stmt(w *wr, s ast.Stmt) {
 	if g.iterStmt(w, s) {
 		return
+	}
+	if g.lheapT != "" && g.rdKind == "" {
+		if v, ok := s.(*ast.AssignStmt); ok && len(v.Lhs) == 1 && len(v.Rhs) == 1 && (v.Tok == token.ASSIGN || v.Tok == token.DEFINE) {
+			var val string
+			ann := " : Int"
+			switch r := v.Rhs[0].(type) {
+			case *ast.UnaryExpr: // x := &T{…}
+				if cl, ok := r.X.(*ast.CompositeLit); ok && r.Op == token.AND && g.isLHeapPtr(g.typeOf(r)) {
+					val = g.lheapAlloc(w, cl)
+				}
+			case *ast.CompositeLit: // x := []*T{{…}, …}
+				if sl, ok := g.typeOf(r).Underlying().(*types.Slice); ok && g.isLHeapPtr(sl.Elem()) && len(r.Elts) > 0 {
+					var ps []string
+					for _, el := range r.Elts {
+						switch e := el.(type) {
+						case *ast.CompositeLit:
+							ps = append(ps, g.lheapAlloc(w, e))
+						case *ast.UnaryExpr:
+							cl, ok := e.X.(*ast.CompositeLit)
+							if !ok || e.Op != token.AND {
+								g.die(el, "slice literal element")
+							}
+							ps = append(ps, g.lheapAlloc(w, cl))
+						default:
+							g.die(el, "slice literal element")
+						}
+					}
+					val, ann = "["+strings.Join(ps, ", ")+"]", " : List Int"
+				}
+			case *ast.CallExpr: // x = append(x, &T{…})
+				if id, ok := r.Fun.(*ast.Ident); ok && id.Name == "append" && len(r.Args) == 2 && r.Ellipsis == token.NoPos {
+					if u, ok := r.Args[1].(*ast.UnaryExpr); ok && u.Op == token.AND && g.isLHeapPtr(g.typeOf(u)) {
+						if cl, ok := u.X.(*ast.CompositeLit); ok {
+							tp := g.lheapAlloc(w, cl)
+							val, ann = g.expr(r.Args[0]).arg()+" ++ ["+tp+"]", " : List Int"
+						}
+					}
+				}
+			}
+			if val != "" {
+				id, isId := v.Lhs[0].(*ast.Ident)
+				if !isId {
+					g.die(v, "allocation assigned to a non-variable")
+				}
+				if v.Tok == token.DEFINE && g.info.Defs[id] != nil {
+					kw := "let "
+					if g.mut[g.objOf(id)] {
+						kw = "let mut "
+					}
+					w.line(kw + g.nameOf(g.objOf(id)) + ann + " := " + val)
+				} else {
+					w.line(g.lvName(id) + " := " + val)
+				}
+				return
+			}
+		}
 	}
 	if g.heapT != "" && g.rdKind == "" {
 		if v, ok := s.(*ast.AssignStmt); ok && len(v.Lhs) == 1 && len(v.Rhs) == 1 && (v.Tok == token.ASSIGN || v.Tok == token.DEFINE) {
@@ -2729,6 +2906,45 @@ func (g *gl) ifStmt(w *wr, v *ast.IfStmt, kw string) {
 			g.stmt(w, a)
 		}
 	}
+	// `if A && !f(x) { … }` / `if !f(x) { … }` for a consumer callback f that is a parameter
+	if g.yieldT != "" && g.yieldName != "" && g.yieldName != "yield" && v.Else == nil && v.Init == nil && kw == "if " {
+		isCall := func(e ast.Expr) (*ast.CallExpr, bool) {
+			u, ok := e.(*ast.UnaryExpr)
+			if !ok || u.Op != token.NOT {
+				return nil, false
+			}
+			c, ok := u.X.(*ast.CallExpr)
+			if !ok || len(c.Args) != 1 {
+				return nil, false
+			}
+			id, ok := c.Fun.(*ast.Ident)
+			return c, ok && id.Name == g.yieldName
+		}
+		var guard ast.Expr
+		c, ok := isCall(v.Cond)
+		if !ok {
+			if b, isB := v.Cond.(*ast.BinaryExpr); isB && b.Op == token.LAND {
+				if c2, ok2 := isCall(b.Y); ok2 {
+					guard, c, ok = b.X, c2, true
+				}
+			}
+		}
+		if ok {
+			if guard != nil {
+				w.line("if " + g.expr(guard).opnd() + " then")
+				w.ind++
+			}
+			w.line("log := log ++ [" + g.expr(c.Args[0]).opnd() + "]")
+			w.line("if !(" + g.yieldName + " log) then")
+			w.ind++
+			g.block(w, v.Body.List)
+			w.ind--
+			if guard != nil {
+				w.ind--
+			}
+			return
+		}
+	}
 	// `if !yield(x) { return }` inside an iter.Seq closure
 	if g.yieldT != "" {
 		if u, ok := v.Cond.(*ast.UnaryExpr); ok && u.Op == token.NOT {
@@ -2864,7 +3080,7 @@ func (g *gl) forStmt(w *wr, v *ast.ForStmt) {
 	}
 	label := g.pendLabel
 	g.pendLabel = ""
-	if v.Init == nil && v.Post == nil && v.Cond == nil && g.rdKind == "" && g.yieldT == "" {
+	if v.Init == nil && v.Post == nil && v.Cond == nil && g.rdKind == "" && (g.yieldT == "" || (g.yieldName != "" && g.yieldName != "yield")) {
 		// for { … }: at most `fuel` iterations, out of fuel = `none` (no claim)
 		hasBreak := false
 		var scan func(n ast.Node, direct bool)
@@ -3061,6 +3277,12 @@ func (g *gl) rangeStmt(w *wr, v *ast.RangeStmt) {
 	}
 	xt := g.typeOf(v.X)
 	x := g.expr(v.X) // before the loop variables are named: they are not in scope here
+	if x.act && g.heapT != "" {
+		// the ranged expression reads the heap (x.m): bind it first
+		t := g.tmp()
+		w.line("let " + t + " ← " + x.text)
+		x = atomE(t)
+	}
 	k := &ast.Ident{Name: "_"}
 	if kid := v.Key.(*ast.Ident); kid.Name != "_" {
 		k.Name = g.nameOf(g.objOf(kid))
@@ -3084,6 +3306,10 @@ func (g *gl) rangeStmt(w *wr, v *ast.RangeStmt) {
 		}
 	}
 	switch {
+	case isMap && v.Value == nil && !isEmptyStruct(xt.Underlying().(*types.Map).Elem()):
+		// keys of a map with values: the association list in list order (every order is covered by quantifying
+		// over every list that represents the map)
+		w.line("for (" + k.Name + ", _) in " + x.opnd() + " do")
 	case isMap && v.Value == nil:
 		// Go ranges over a map in an unspecified order; the translation uses ascending key order, which is
 		// only meaningful for order-insensitive bodies (the translated code sorts what it collects)
@@ -3541,8 +3767,21 @@ func (g *gl) funcOrMethod(recvType, goName, name, rel, placeholder string) {
 				g.structLoc[robj] = fs
 			}
 		}
+		cbT := ""
+		g.yieldName = ""
 		for _, fl := range sig.Params.List {
 			for _, pn := range fl.Names {
+				if fs, ok := g.info.Defs[pn].Type().Underlying().(*types.Signature); ok {
+					// a consumer callback f func(T) bool of a function without results: the function becomes the log of
+					// items handed to f (f is asked about the whole history, the current item last)
+					if fs.Params().Len() != 1 || fs.Results().Len() != 1 || !isBoolT(fs.Results().At(0).Type()) || (sig.Results != nil && len(sig.Results.List) > 0) {
+						g.die(fd, "function-typed parameter")
+					}
+					cbT = g.leanType(fs.Params().At(0).Type())
+					g.yieldName = g.nameOf(g.info.Defs[pn])
+					params = append(params, "("+g.yieldName+" : List "+paren(cbT)+" → Bool)")
+					continue
+				}
 				params = append(params, "("+g.nameOf(g.info.Defs[pn])+" : "+g.leanType(g.info.Defs[pn].Type())+")")
 				if isAccum(g.info.Defs[pn].Type()) {
 					// an accumulator passed by pointer: written through, so handed back
@@ -3554,7 +3793,7 @@ func (g *gl) funcOrMethod(recvType, goName, name, rel, placeholder string) {
 				}
 			}
 		}
-		if (sig.Results == nil || len(sig.Results.List) == 0) && g.heapT == "" && len(accNames) == 0 {
+		if (sig.Results == nil || len(sig.Results.List) == 0) && g.heapT == "" && len(accNames) == 0 && cbT == "" {
 			g.die(fd, "result list")
 		}
 		g.funcs[name].accParams = accNames
@@ -3603,7 +3842,12 @@ func (g *gl) funcOrMethod(recvType, goName, name, rel, placeholder string) {
 			}
 			resT = "(" + strings.Join(append(ts, recvTypes...), " × ") + ")"
 		}
-		if rt == nil {
+		if rt == nil && cbT != "" {
+			g.yieldT = cbT
+			resT = "List " + paren(cbT)
+			w.line("let mut log : " + resT + " := []")
+			doc = "; `" + g.yieldName + "` is the consumer callback -- ANY deterministic consumer: it is given the list of all items handed to it so far, the current one last -- and the result is the log of items handed to it"
+		} else if rt == nil {
 			resT = "Unit"
 		} else if named, ok := rt.(*types.Named); ok && named.Obj().Pkg() != nil && named.Obj().Pkg().Path() == "iter" && named.Obj().Name() == "Seq" {
 			// return func(yield func(T) bool) { ... }
@@ -3685,6 +3929,9 @@ func (g *gl) funcOrMethod(recvType, goName, name, rel, placeholder string) {
 		if g.heapT != "" && g.heapUse && g.heapWr {
 			w.line("let mut heap := heap")
 		}
+		if g.usesLHeap(fd) {
+			w.line("let mut lheap : List " + paren(g.leanType(g.lheapStruct())) + " := []")
+		}
 		g.block(w, body)
 		if g.yieldT != "" {
 			w.line("return log")
@@ -3706,7 +3953,11 @@ func (g *gl) funcOrMethod(recvType, goName, name, rel, placeholder string) {
 		}
 		if g.heapT != "" && g.heapUse {
 			hl := g.heapLeanT()
-			if rt == nil {
+			if rt == nil && cbT != "" {
+				if g.heapWr {
+					g.die(fd, "a callback iterator that writes the heap")
+				}
+			} else if rt == nil {
 				if g.heapWr {
 					w.line("return heap")
 					resT = hl
@@ -4581,6 +4832,10 @@ func goLean(repo, out string) {
 	g9.method("Trie", "Add", "Trie_Add", "trie", "def Trie_Add (fuel : Nat) (heap : "+HP+") (t : Int) (b : "+B+") : Option ("+HP+") := none")
 	g9.method("Trie", "Has", "Trie_Has", "trie", "def Trie_Has (fuel : Nat) (heap : "+HP+") (t : Int) (b : "+B+") : Option Bool := none")
 	g9.method("Trie", "Delete", "Trie_Delete", "trie", "def Trie_Delete (heap : "+HP+") (t : Int) (b : "+B+") : Option (Bool × "+HP+") := none")
+	g9.lheapT = "forEachStep"
+	g9.methodNames["Trie.keys"], g9.methodNames["Trie.ForEach"] = "Trie_keys", "Trie_ForEach"
+	g9.method("Trie", "keys", "Trie_keys", "trie", "def Trie_keys (heap : "+HP+") (t : Int) : Option ("+B+") := none")
+	g9.method("Trie", "ForEach", "Trie_ForEach", "trie", "def Trie_ForEach (fuel : Nat) (heap : "+HP+") (t : Int) (f : "+BB+" → Bool) : Option ("+BB+") := none")
 	for _, n := range g9.order {
 		w.WriteString(g9.funcs[n].text)
 		w.WriteString("\n")
